@@ -41,6 +41,7 @@ type pluginCase struct {
 	Args    []string          `json:"args,omitempty"`   // extra CLI args
 	OutDir  string            `json:"outdir,omitempty"` // relative output dir (default "out")
 	Direct  map[string]string `json:"direct,omitempty"` // mode "direct": files answered by an in-process ServiceGenerator
+	Pre     [][]string        `json:"pre,omitempty"`    // cli mode: earlier runs (extra args each, no plugins) whose output is already in place
 }
 
 func installPlugins(dir, fake string, ps []pluginScript) error {
@@ -206,6 +207,16 @@ func runCLI(c pluginCase, fake, thriftrw string, o wj.J) {
 	outDir := filepath.Join(sandbox, "work", outRel)
 	os.MkdirAll(outDir, 0755)
 	os.WriteFile(filepath.Join(outDir, "keep.txt"), []byte("pre-existing"), 0644)
+	for _, pre := range c.Pre {
+		pa := append([]string{"--out", outDir, "--pkg-prefix", "example.com/gen", "--no-version-check"}, pre...)
+		pa = append(pa, filepath.Join(sandbox, "work", root))
+		pc := exec.Command(thriftrw, pa...)
+		pc.Dir = filepath.Join(sandbox, "work")
+		if out, err := pc.CombinedOutput(); err != nil {
+			o["setup"] = "earlier run failed: " + string(out)
+			return
+		}
+	}
 	before := listTree(filepath.Join(sandbox, "work"))
 	args := []string{"--out", outDir, "--pkg-prefix", "example.com/gen", "--no-version-check"}
 	for _, p := range c.Plugins {
